@@ -29,7 +29,8 @@ def required(tier):
     b.update({f'fprof:{k}': 2 for k in ('box', 'gaussian', 'multi', 'lorentzian', 'voigt', 'sinc2')})
     b.update({f'bp:{k}': 2 for k in work_sig.BP_KINDS})
     b.update({f'bound:{k}': 2 for k in set(work_sig.BOUND_KINDS)})
-    b.update({'orient:asc': 10, 'orient:desc': 10, 'array-path-with-smearing': 2, 'validation-probe': 10})
+    b.update({'orient:asc': 10, 'orient:desc': 10, 'array-path-with-smearing': 2, 'validation-probe': 10,
+              'bp-array:restricted-grid-length-equals-fchans': 10})
     return {'buckets': b, 'counters': {'pixels_compared': 10000, 'add_signal_calls': 100}, 'checks': 300, 'nontrivial': 50}
 
 
@@ -44,7 +45,22 @@ def gen_cases(seed, tier):
         spec = work_sig.gen_signal(rng, g, i=i)
         opts = work_sig.gen_opts(rng, i)
         bk = work_sig.BOUND_KINDS[(i // 16) % len(work_sig.BOUND_KINDS)]
-        cases.append(dict(geom=g, spec=spec, opts=opts, bound_kind=bk, brange=work_sig.gen_bounding(rng, g, bk),
+        brange = work_sig.gen_bounding(rng, g, bk)
+        if i % 40 == 7:
+            # array bandpass on a bounded, frequency-integrated grid whose length equals fchans exactly
+            S = int(common.pick(rng, [2, 3, 4]))
+            nb = int(rng.integers(2, 40))
+            g['fchans'] = nb * S
+            spec = work_sig.gen_signal(rng, g, i=i)
+            spec['bp'] = {'kind': 'array', 'level': 1.0, 'cycles': float(rng.uniform(0.7, 3))}
+            opts['integrate_f_profile'], opts['f_subsamples'] = True, S
+            a0 = int(rng.integers(0, g['fchans'] - nb + 1))
+            fmin = work_sig.axes_of(g)
+            bk, brange = 'inside', [fmin + (a0 + 0.2) * g['df'], fmin + (a0 + nb - 0.2) * g['df']]
+            spec['path']['f_start'] = fmin + (a0 + nb / 2 + float(rng.uniform(-1, 1))) * g['df']
+            if spec['path']['kind'] in ('constant', 'squared', 'sine', 'rfi'):
+                spec['path']['drift'] = float(rng.normal()) * 0.2 * g['df'] / g['dt']
+        cases.append(dict(geom=g, spec=spec, opts=opts, bound_kind=bk, brange=brange,
                           sub=int(rng.integers(2 ** 31))))
     return cases
 
@@ -104,6 +120,8 @@ def run_case(c, R):
     R.bucket('orient:asc' if g['asc'] else 'orient:desc')
     if spec['path']['form'] in ('array', 'list') and opts['doppler_smearing']:
         R.bucket('array-path-with-smearing')
+    if spec['bp']['kind'] == 'array' and (hi - lo) < fr.fchans and (hi - lo) * (opts['f_subsamples'] if opts['integrate_f_profile'] else 1) == fr.fchans:
+        R.bucket('bp-array:restricted-grid-length-equals-fchans')
     got = call_add_signal(fr, stg, spec, opts, c['brange'], ref, lo, hi, R)
     R.count('add_signal_calls')
     R.check(isinstance(got, np.ndarray) and got.shape == (g['tchans'], g['fchans']), 'return-shape',
